@@ -53,6 +53,7 @@ func (m *Mutex) Lock() {
 	vsched.ParkUntil(func() bool { return !m.locked }, fmt.Sprintf("mutex %p (held by %s)", m, m.owner))
 	m.locked = true
 	m.owner = vsched.CurrentName()
+	vsched.HBAcquire(m)
 }
 
 func (m *Mutex) TryLock() bool {
@@ -68,6 +69,7 @@ func (m *Mutex) TryLock() bool {
 	}
 	m.locked = true
 	m.owner = vsched.CurrentName()
+	vsched.HBAcquire(m)
 	return true
 }
 
@@ -75,6 +77,7 @@ func (m *Mutex) unlockNoYield() {
 	if !m.locked {
 		panic("sync: unlock of unlocked mutex")
 	}
+	vsched.HBRelease(m)
 	m.locked = false
 	m.owner = ""
 }
@@ -134,6 +137,8 @@ func (m *RWMutex) Lock() {
 	vsched.ParkUntil(func() bool { return !m.writer && m.readers == 0 }, fmt.Sprintf("rwmutex %p (write)", m))
 	m.writer = true
 	m.owner = vsched.CurrentName()
+	vsched.HBAcquire(m)
+	vsched.HBAcquire(&m.readers)
 }
 
 func (m *RWMutex) Unlock() {
@@ -148,6 +153,7 @@ func (m *RWMutex) Unlock() {
 	if !m.writer {
 		panic("sync: Unlock of unlocked RWMutex")
 	}
+	vsched.HBRelease(m)
 	m.writer = false
 	m.owner = ""
 	vsched.Yield("Unlock")
@@ -165,6 +171,7 @@ func (m *RWMutex) RLock() {
 	vsched.ParkUntil(func() bool { return !m.writer }, fmt.Sprintf("rwmutex %p (read, write-held by %s)", m, m.owner))
 	m.readers++
 	m.owner = vsched.CurrentName()
+	vsched.HBAcquire(m)
 }
 
 func (m *RWMutex) RUnlock() {
@@ -181,6 +188,7 @@ func (m *RWMutex) RUnlock() {
 	if m.readers <= 0 {
 		panic("sync: RUnlock of unlocked RWMutex")
 	}
+	vsched.HBRelease(&m.readers)
 	m.readers--
 	vsched.Yield("RUnlock")
 }
@@ -292,6 +300,7 @@ func (wg *WaitGroup) Add(delta int) {
 		panic("sync: negative WaitGroup counter")
 	}
 	if delta < 0 {
+		vsched.HBRelease(wg)
 		vsched.Yield("WaitGroup.Done")
 	}
 }
@@ -307,6 +316,7 @@ func (wg *WaitGroup) Wait() {
 		return
 	}
 	vsched.ParkUntil(func() bool { return wg.n == 0 }, fmt.Sprintf("waitgroup %p (counter %d)", wg, wg.n))
+	vsched.HBAcquire(wg)
 }
 
 func (wg *WaitGroup) Go(f func()) {
